@@ -35,3 +35,28 @@ var kbinSummaries = map[string]calleeSummary{
 		return []dbc{{res[0], "", 0, "copy >= 0"}, {"len(" + args[0] + ")", res[0], 0, "copy <= len(dst)"}, {"len(" + args[1] + ")", res[0], 0, "copy <= len(src)"}}
 	},
 }
+
+// kgoSummaries adds summaries of kgo helpers (each verified by a shape rule
+// in the property that uses it).
+var kgoSummaries = func() map[string]calleeSummary {
+	m := map[string]calleeSummary{}
+	for k, v := range kbinSummaries {
+		m[k] = v
+	}
+	// ensureLen(s, n) returns a slice of length exactly n
+	m["kgo.ensureLen"] = func(res, args []string) []dbc {
+		if len(res) < 1 || len(args) < 2 {
+			return nil
+		}
+		l := "len(" + res[0] + ")"
+		return []dbc{{l, args[1], 0, "ensureLen: len == n"}, {args[1], l, 0, "ensureLen: len == n"}}
+	}
+	// readRawRecordsInto(rs, in) returns a prefix of rs and a non-negative header count
+	m["kgo.readRawRecordsInto"] = func(res, args []string) []dbc {
+		if len(res) < 2 || len(args) < 1 {
+			return nil
+		}
+		return []dbc{{"len(" + args[0] + ")", "len(" + res[0] + ")", 0, "readRawRecordsInto: result is a prefix of rs"}, {res[1], "", 0, "readRawRecordsInto: header count >= 0"}}
+	}
+	return m
+}()
